@@ -239,6 +239,345 @@ fn hammer(secs: u64, rep: &mut Report) {
     });
 }
 
+// ------------------------------------------------------------------------------------------------ mix
+/// One actor, many kinds of traffic at once on a multi-thread runtime, drawn from a seeded PRNG: tells and asks, their
+/// timeout variants, the same through type-erased handles, sends cancelled by their caller, blocking calls from plain
+/// threads, handlers that tell their own actor a follow-up, handle churn (clone / downgrade / upgrade / drop), and one
+/// ending (kill, stop, stop through a boxed ActorControl, or the last reference going away).  Only logical oracles:
+/// what each operation returned against what the actor did, and the dead-letter count against the failures.
+static MIX_SEED: AtomicU64 = AtomicU64::new(1);
+struct MxSh {
+    clock: AtomicU64,
+    handler_failures: AtomicU64, // failed self-tells issued from handlers (each records one dead letter)
+}
+struct Mx {
+    sh: Arc<MxSh>,
+    run_mode: u8,
+    quiet: Arc<tokio::sync::Notify>,
+    handled: Vec<(u32, u64)>,
+    stops: Vec<bool>,
+}
+impl Actor for Mx {
+    type Args = (Arc<MxSh>, u8);
+    type Error = String;
+    async fn on_start(a: Self::Args, _: &ActorRef<Self>) -> Result<Self, String> {
+        Ok(Mx { sh: a.0, run_mode: a.1, quiet: Arc::new(tokio::sync::Notify::new()), handled: vec![], stops: vec![] })
+    }
+    async fn on_run(&mut self, _: &ActorWeak<Self>) -> Result<bool, String> {
+        match self.run_mode {
+            0 => Ok(false),
+            1 => {
+                tokio::task::yield_now().await;
+                Ok(true)
+            }
+            _ => {
+                self.quiet.notified().await;
+                Ok(true)
+            }
+        }
+    }
+    async fn on_stop(&mut self, _: &ActorWeak<Self>, k: bool) -> Result<(), String> {
+        self.stops.push(k);
+        Ok(())
+    }
+}
+/// id, follow-ups still to send to oneself
+struct Xm(u32, u32);
+impl Message<Xm> for Mx {
+    type Reply = u32;
+    async fn handle(&mut self, m: Xm, me: &ActorRef<Self>) -> u32 {
+        let t = self.sh.clock.fetch_add(1, SeqCst);
+        self.handled.push((m.0, t));
+        if m.0 % 5 == 0 {
+            tokio::task::yield_now().await;
+        }
+        if m.1 > 0 {
+            // a bounded self-send: on a full mailbox it gives up (and has recorded its one dead letter)
+            if me.tell_with_timeout(Xm(m.0 + 1, m.1 - 1), Duration::from_millis(20)).await.is_err() {
+                self.sh.handler_failures.fetch_add(1, SeqCst);
+            }
+        }
+        m.0
+    }
+}
+#[derive(Clone, Copy, Debug, PartialEq)]
+enum Xr {
+    Ok(u32),
+    Unit,
+    Send,
+    Recv,
+    Timeout,
+    Cancelled,
+}
+impl Xr {
+    fn failed(self) -> bool {
+        matches!(self, Xr::Send | Xr::Recv | Xr::Timeout)
+    }
+}
+
+fn mix(secs: u64, rep: &mut Report) {
+    use rsactor::{ActorControl, AskHandler, TellHandler};
+    harness::log::install();
+    let rt = tokio::runtime::Builder::new_multi_thread().worker_threads(8).enable_time().build().unwrap();
+    let seed0 = MIX_SEED.load(SeqCst);
+    let (mut iters, mut ops_total, mut failures_total, mut handled_total) = (0u64, 0u64, 0u64, 0u64);
+    let t_begin = Instant::now();
+    while t_begin.elapsed() < Duration::from_secs(secs) && rep.violations.len() < 5 {
+        iters += 1;
+        let mut rng = harness::rng::Rng::new(seed0.wrapping_mul(1_000_003).wrapping_add(iters));
+        let cap = *rng.pick(&[1usize, 2, 4, 32]);
+        let run_mode = rng.below(3) as u8;
+        let ending = rng.below(5); // 0 kill, 1 stop, 2 erased stop, 3 last drop, 4 last drop after a downgrade/upgrade round trip
+        let yields = rng.below(6);
+        note(format!("mix: iteration {iters} (seed {seed0}): capacity {cap}, on_run mode {run_mode}, ending {ending}"));
+        harness::log::reset();
+        let dl_before = harness::log::DEAD_LETTER_EVENTS.load(SeqCst);
+        let sh = Arc::new(MxSh { clock: AtomicU64::new(1), handler_failures: AtomicU64::new(0) });
+        let kill_ret = Arc::new(AtomicBool::new(false));
+        let (r, j) = rt.block_on(async { spawn_with_mailbox_capacity::<Mx>((sh.clone(), run_mode), cap) });
+        // --- async senders
+        let bar = Arc::new(tokio::sync::Barrier::new(6));
+        let mut hs = vec![];
+        for snd in 0..5u32 {
+            let r2 = r.clone();
+            let b = bar.clone();
+            let sh2 = sh.clone();
+            let plan: Vec<u64> = (0..6).map(|_| rng.below(11)).collect();
+            hs.push(rt.spawn(async move {
+                b.wait().await;
+                let mut out: Vec<(u32, u64, u64, Xr, bool, u32)> = vec![];
+                let th: Box<dyn TellHandler<Xm>> = (&r2).into();
+                let ah: Box<dyn AskHandler<Xm, u32>> = (&r2).into();
+                let weak = ActorRef::downgrade(&r2);
+                for (k, kind) in plan.iter().enumerate() {
+                    let id = snd * 1000 + (k as u32) * 10;
+                    let st = sh2.clock.fetch_add(1, SeqCst);
+                    let e = |e: rsactor::Error| match e {
+                        rsactor::Error::Send { .. } => Xr::Send,
+                        rsactor::Error::Timeout { .. } => Xr::Timeout,
+                        _ => Xr::Recv,
+                    };
+                    let (res, is_tell, chain) = match kind {
+                        0 => (r2.tell(Xm(id, 0)).await.map(|_| Xr::Unit).unwrap_or_else(e), true, 0),
+                        1 => (r2.ask(Xm(id, 0)).await.map(Xr::Ok).unwrap_or_else(e), false, 0),
+                        2 => (r2.tell_with_timeout(Xm(id, 0), Duration::from_millis(30)).await.map(|_| Xr::Unit).unwrap_or_else(e), true, 0),
+                        3 => (r2.ask_with_timeout(Xm(id, 0), Duration::from_secs(5)).await.map(Xr::Ok).unwrap_or_else(e), false, 0),
+                        4 => (th.tell(Xm(id, 0)).await.map(|_| Xr::Unit).unwrap_or_else(e), true, 0),
+                        5 => (ah.ask(Xm(id, 0)).await.map(Xr::Ok).unwrap_or_else(e), false, 0),
+                        6 => (th.tell_with_timeout(Xm(id, 0), Duration::from_millis(30)).await.map(|_| Xr::Unit).unwrap_or_else(e), true, 0),
+                        // a tell dropped by its caller after 1 ms: Ok if the mailbox had accepted it by then, else nothing happened
+                        7 => (match tokio::time::timeout(Duration::from_millis(1), r2.tell(Xm(id, 0))).await {
+                            Ok(Ok(())) => Xr::Unit,
+                            Ok(Err(x)) => e(x),
+                            Err(_) => Xr::Cancelled,
+                        }, true, 0),
+                        // a message whose handler tells its own actor two follow-ups
+                        8 => (r2.tell(Xm(id, 2)).await.map(|_| Xr::Unit).unwrap_or_else(e), true, 2),
+                        // through a freshly upgraded weak handle
+                        9 => match ActorWeak::upgrade(&weak) {
+                            Some(u) => (u.tell(Xm(id, 0)).await.map(|_| Xr::Unit).unwrap_or_else(e), true, 0),
+                            None => (Xr::Cancelled, true, 0),
+                        },
+                        _ => {
+                            let c = r2.clone();
+                            let res = c.ask(Xm(id, 0)).await.map(Xr::Ok).unwrap_or_else(e);
+                            drop(c);
+                            (res, false, 0)
+                        }
+                    };
+                    let en = sh2.clock.fetch_add(1, SeqCst);
+                    out.push((id, st, en, res, is_tell, chain));
+                }
+                out
+            }));
+        }
+        // --- a plain thread using the blocking API
+        let rb = r.clone();
+        let shb = sh.clone();
+        let bplan: Vec<u64> = (0..4).map(|_| rng.below(4)).collect();
+        let bth = std::thread::spawn(move || {
+            let mut out: Vec<(u32, u64, u64, Xr, bool, u32)> = vec![];
+            for (k, kind) in bplan.iter().enumerate() {
+                let id = 9000 + (k as u32) * 10;
+                let st = shb.clock.fetch_add(1, SeqCst);
+                let e = |e: rsactor::Error| match e {
+                    rsactor::Error::Send { .. } => Xr::Send,
+                    rsactor::Error::Timeout { .. } => Xr::Timeout,
+                    _ => Xr::Recv,
+                };
+                let (res, is_tell) = match kind {
+                    0 => (rb.blocking_tell(Xm(id, 0), None).map(|_| Xr::Unit).unwrap_or_else(e), true),
+                    1 => (rb.blocking_ask(Xm(id, 0), None).map(Xr::Ok).unwrap_or_else(e), false),
+                    2 => (rb.blocking_tell(Xm(id, 0), Some(Duration::from_secs(5))).map(|_| Xr::Unit).unwrap_or_else(e), true),
+                    _ => (rb.blocking_ask(Xm(id, 0), Some(Duration::from_secs(5))).map(Xr::Ok).unwrap_or_else(e), false),
+                };
+                let en = shb.clock.fetch_add(1, SeqCst);
+                out.push((id, st, en, res, is_tell, 0));
+            }
+            out
+        });
+        // --- the ending
+        let (res, cause_t) = rt.block_on(async {
+            bar.wait().await;
+            for _ in 0..yields {
+                tokio::task::yield_now().await;
+            }
+            let cause_t = sh.clock.fetch_add(1, SeqCst);
+            match ending {
+                0 => {
+                    if r.kill().is_err() {
+                        rep.v("C06", format!("mix iter {iters}: kill() returned Err"));
+                    }
+                    kill_ret.store(true, SeqCst);
+                }
+                1 => {
+                    let _ = r.stop().await;
+                }
+                2 => {
+                    let c: Box<dyn ActorControl> = (&r).into();
+                    let _ = c.stop().await;
+                }
+                4 => {
+                    let w = ActorRef::downgrade(&r);
+                    let u = ActorWeak::upgrade(&w);
+                    drop(u);
+                }
+                _ => {}
+            }
+            drop(r);
+            (tokio::time::timeout(Duration::from_secs(20), j).await, cause_t)
+        });
+        let res = match res {
+            Ok(Ok(x)) => x,
+            Ok(Err(e)) => {
+                rep.v("C12 C05", format!("mix iter {iters} (seed {seed0}): the actor's task failed: {e}"));
+                continue;
+            }
+            Err(_) => {
+                rep.v("C07 C03", format!("mix iter {iters} (seed {seed0}, capacity {cap}, on_run mode {run_mode}, ending {ending}): the JoinHandle had not resolved 20 s after the ending (kill / stop / last external reference dropped; senders only hold clones while they send)"));
+                continue;
+            }
+        };
+        let mut sent: Vec<(u32, u64, u64, Xr, bool, u32)> = vec![];
+        let mut hung = false;
+        rt.block_on(async {
+            for (si, mut h) in hs.into_iter().enumerate() {
+                match tokio::time::timeout(Duration::from_secs(15), &mut h).await {
+                    Ok(Ok(v)) => sent.extend(v),
+                    Ok(Err(_)) => {}
+                    Err(_) => {
+                        hung = true;
+                        rep.v("C03", format!("mix iter {iters} (seed {seed0}): sender task {si} still pending 15 s after the actor's JoinHandle resolved (an operation that never returns)"));
+                        h.abort();
+                    }
+                }
+            }
+        });
+        match bth.join() {
+            Ok(v) => sent.extend(v),
+            Err(_) => rep.v("C17", format!("mix iter {iters} (seed {seed0}): the thread using the blocking API panicked")),
+        }
+        if hung {
+            continue;
+        }
+        std::thread::sleep(Duration::from_millis(20)); // helper threads of timed blocking calls have finished
+        ops_total += sent.len() as u64;
+        let killed = res.was_killed();
+        let completed = res.is_completed();
+        let Some(actor) = res.into_actor() else { continue };
+        handled_total += actor.handled.len() as u64;
+        let what = format!("mix iter {iters} (seed {seed0}, capacity {cap}, on_run mode {run_mode}, ending {ending})");
+        // C01: at most once
+        let mut ids: Vec<u32> = actor.handled.iter().map(|x| x.0).collect();
+        let n = ids.len();
+        ids.sort();
+        ids.dedup();
+        if ids.len() != n {
+            rep.v("C01", format!("{what}: a message was handled twice"));
+        }
+        // C04 / C05: on_stop once, flag and result agree with the cause
+        if actor.stops.len() != 1 || !completed {
+            rep.v("C04 C05", format!("{what}: on_stop calls {:?}, completed={completed} (exactly one on_stop, completed)", actor.stops));
+        } else if ending == 0 && (!killed || actor.stops != vec![true]) {
+            rep.v("C06 C05 C04", format!("{what}: after kill(): result.killed={killed}, on_stop argument {:?}", actor.stops));
+        } else if ending != 0 && (killed || actor.stops != vec![false]) {
+            rep.v("C04 C05 C07", format!("{what}: graceful ending reported killed={killed}, on_stop argument {:?}", actor.stops));
+        }
+        let handled_of = |id: u32| actor.handled.iter().find(|x| x.0 == id);
+        let mut failures = sh.handler_failures.load(SeqCst);
+        for (id, _st, en, res, is_tell, chain) in &sent {
+            if res.failed() {
+                failures += 1;
+            }
+            match res {
+                Xr::Send | Xr::Cancelled => {
+                    if handled_of(*id).is_some() {
+                        rep.v("C01", format!("{what}: operation {id} returned {res:?} (never accepted) but its message was handled"));
+                    }
+                }
+                Xr::Timeout => {
+                    if *is_tell && handled_of(*id).is_some() {
+                        rep.v("C01 C10", format!("{what}: tell {id} returned Err(Timeout) but its message was handled"));
+                    }
+                }
+                Xr::Ok(v) => {
+                    if v != id {
+                        rep.v("C03", format!("{what}: ask {id} got the reply {v}"));
+                    }
+                    if handled_of(*id).is_none() {
+                        rep.v("C03", format!("{what}: ask {id} returned Ok without its handler having run"));
+                    }
+                }
+                Xr::Unit => {
+                    // accepted before the graceful ending was requested, on an actor that was not killed: handled, follow-ups included
+                    if ending != 0 && !killed && *en < cause_t {
+                        if handled_of(*id).is_none() {
+                            rep.v("C01 C02", format!("{what}: tell {id} returned Ok before the ending was requested but was never handled"));
+                        }
+                    }
+                    let _ = chain;
+                }
+                Xr::Recv => {}
+            }
+        }
+        // follow-ups are handled after the message that sent them
+        for h in &actor.handled {
+            if h.0 % 10 != 0 {
+                match handled_of(h.0 - 1) {
+                    Some(p) if p.1 < h.1 => {}
+                    _ => rep.v("C01 C02", format!("{what}: follow-up {} was handled but not after the message that sent it", h.0)),
+                }
+            }
+        }
+        // C02: per-sender program order, and completed-before-began order
+        for snd in (0..5u32).chain(std::iter::once(9)) {
+            let seq: Vec<u32> = actor.handled.iter().map(|x| x.0).filter(|i| i / 1000 == snd && i % 10 == 0).collect();
+            if seq.windows(2).any(|w| w[0] >= w[1]) {
+                rep.v("C02", format!("{what}: sender {snd}'s messages were handled out of program order: {seq:?}"));
+            }
+        }
+        for a in &sent {
+            for b in &sent {
+                if a.2 < b.1 && a.4 && a.3 == Xr::Unit {
+                    if let (Some(x), Some(y)) = (handled_of(a.0), handled_of(b.0)) {
+                        if x.1 > y.1 {
+                            rep.v("C02", format!("{what}: tell {} had returned Ok before send {} began but was handled after it", a.0, b.0));
+                        }
+                    }
+                }
+            }
+        }
+        // C13: one dead letter per failed operation, none otherwise, under any concurrency
+        let dl = harness::log::DEAD_LETTER_EVENTS.load(SeqCst) - dl_before;
+        failures_total += failures;
+        if dl != failures {
+            let kinds: Vec<String> = sent.iter().filter(|x| x.3.failed()).map(|x| format!("{}:{:?}", x.0, x.3)).collect();
+            rep.v("C13", format!("{what}: {failures} operations failed ({} from senders: {kinds:?}; {} self-sends in handlers) and {dl} dead letters were recorded", failures - sh.handler_failures.load(SeqCst), sh.handler_failures.load(SeqCst)));
+        }
+    }
+    rep.s("mix", format!("iters={iters} operations={ops_total} handled={handled_total} failed_operations={failures_total} seed={seed0}"));
+}
+
 // ------------------------------------------------------------------------------------------------ ask_join
 struct J;
 impl Actor for J {
@@ -2190,7 +2529,7 @@ fn main() {
         match args[i].as_str() {
             "--scenario" => { scenarios = args[i + 1].split(',').map(|s| s.to_string()).collect(); i += 1 }
             "--seconds" => { secs = args[i + 1].parse().unwrap(); i += 1 }
-            "--seed" => { i += 1 }
+            "--seed" => { MIX_SEED.store(args[i + 1].parse().unwrap_or(1), SeqCst); i += 1 }
             "--report" => { report = Some(args[i + 1].clone()); i += 1 }
             o => panic!("unknown argument {o}"),
         }
@@ -2202,6 +2541,7 @@ fn main() {
         // forever must end in a verdict, not in a hung check
         let (props, budget) = match s.as_str() {
             "hammer" => ("C01 C02 C03 C06", secs + 180),
+            "mix" => ("C01 C02 C03 C04 C05 C06 C07 C13", secs + 240),
             "askjoin" => ("C03", 180),
             "late" => ("C01 C10", 360),
             "cancel" => ("C02 C01 C09 C07 C08", 240),
@@ -2230,6 +2570,7 @@ fn main() {
                 r = Report::default();
                 match name.as_str() {
                     "hammer" => hammer(secs, &mut r),
+                    "mix" => mix(secs, &mut r),
                     "askjoin" => askjoin(&mut r),
                     "late" => late(&mut r),
                     "cancel" => cancel(&mut r),
